@@ -6,9 +6,12 @@ struct good_all_mem_init { good_all_mem_init() : a(0), b(0) {} int a; int b; };
 struct good_in_class { good_in_class() {} int a = 0; bool b = false; void* p = nullptr; };
 struct good_body_assign { good_body_assign() { a = 1; } int a; };
 struct bad_conditional_assign { explicit bad_conditional_assign(bool x) { if (x) a = 1; } int a; };
+struct good_base_with_ctor { explicit good_base_with_ctor(int v) : a(v) {} int a; };
+struct bad_inherits_ctor : good_base_with_ctor { using good_base_with_ctor::good_base_with_ctor; int limit; };
+struct good_inherits_ctor : good_base_with_ctor { using good_base_with_ctor::good_base_with_ctor; int limit = -1; };
 int bad_local_conditional(bool x) { int v; if (x) v = 1; return v; }
 int bad_local_never(int a) { int v; return a + v; }
 int good_local_both_branches(bool x) { int v; if (x) v = 1; else v = 2; return v; }
 int good_local_out_param(int (*f)(int*)) { int v; f(&v); return v; }
-void use() { bad_ctor_leaves_field x1; bad_empty_user_ctor x2; good_all_mem_init x3; good_in_class x4; good_body_assign x5; bad_conditional_assign x6(true); (void)x1; (void)x2; (void)x3; (void)x4; (void)x5; (void)x6; }
+void use() { bad_ctor_leaves_field x1; bad_empty_user_ctor x2; good_all_mem_init x3; good_in_class x4; good_body_assign x5; bad_conditional_assign x6(true); (void)x1; (void)x2; (void)x3; (void)x4; (void)x5; (void)x6; bad_inherits_ctor x7(1); good_inherits_ctor x8(1); (void)x7; (void)x8; }
 }
